@@ -41,19 +41,20 @@ pub fn force_prove() -> bool {
 }
 
 std::thread_local! {
-    static LAST_CHALLENGES: core::cell::RefCell<Option<[BlsScalar; 7]>> =
+    static LAST_CHALLENGES: core::cell::RefCell<Option<[BlsScalar; 11]>> =
         const { core::cell::RefCell::new(None) };
 }
 
-/// Records the challenges `[alpha, beta, gamma, z, v, v_w, u]` the verifier
+/// Records the challenges `[alpha, beta, gamma, range, logic, fixed-base,
+/// variable-base separation, z, v, v_w, u]` the verifier
 /// derived for the proof it is checking on the calling thread (observation
 /// only; used to build challenge-dependent adversarial proofs).
-pub fn record_verifier_challenges(challenges: [BlsScalar; 7]) {
+pub fn record_verifier_challenges(challenges: [BlsScalar; 11]) {
     LAST_CHALLENGES.with(|c| *c.borrow_mut() = Some(challenges));
 }
 
 /// Takes the challenges recorded by the last verification on this thread.
-pub fn take_verifier_challenges() -> Option<[BlsScalar; 7]> {
+pub fn take_verifier_challenges() -> Option<[BlsScalar; 11]> {
     LAST_CHALLENGES.with(|c| c.borrow_mut().take())
 }
 
